@@ -12,5 +12,8 @@ fi
 if [ "$tier" = thorough ]; then
   # each thorough run re-loads the whole repository per variant (several GB in total): at most 2 at a time machine-wide
   exec 9>/tmp/charonlint.thorough.lock.$(( $$ % 2 )); flock 9
+  # every variant is a fresh whole-repository load; keep the collector tight so that garbage from finished variants
+  # does not pile up (observed: >50 GB without a limit on the property with the most variants)
+  export GOMEMLIMIT=10GiB GOGC=50
 fi
 exec bin/charonlint -prop "$prop" -tier "$tier" -repo /repo -out "$here/evidence" -known "$here/known_findings.json" "$@"
